@@ -40,6 +40,13 @@ CHECKS["C01"] = dict(
    note="Trusted: the reference validator ref/refv (written from the statement, stdlib only). Not asserted: duplicate keys, numerals other than 1 / 1.5.",
    design="4/C01")
 
+CHECKS["C02"] = dict(
+   category="exploration", engine="B small-scope enumeration with reference rule semantics",
+   technique="exhaustive enumeration of rule sets x parameter variants x examples x boundary probes against a three-valued reference (math/big, regexp, calendar)",
+   text="For every scalar kind, all rule sets of up to 5 (thorough 7) distinct rule names with all parameter variants from boundary sets, for every example candidate that satisfies them, validated against probe values on, just inside and just outside every bound, alternative numeral spellings, escaped strings, exhaustive date grids, datetime field boundaries, uuid shapes and curated email/uri lists, and every other JSON kind; the verdict must equal the reference rule semantics.",
+   note="Trusted: ref/refv + ref/decimal. Not asserted: non-ASCII string lengths, alternative spellings for const/enum, RFC 3339 corners left to the Go standard library, email/uri beyond curated lists.",
+   design="4/C02")
+
 NOT_YET = {
 }
 
